@@ -7,5 +7,6 @@ CONSTANTS
   MaxTab = 6
   FullTab = 6
   AgreeTab = 6
-  MaxLen = 5
+  MaxLen = 4
   Dups = FALSE
+  Slim = FALSE
